@@ -480,6 +480,22 @@ def leaves(c, out):
     return out
 
 
+# eigenvectors are determined up to a phase factor each; LAPACK's geev normalises so that the component of
+# largest modulus is real, a choice that a rounding difference can flip.  In the tolerance modes the
+# eigenvector leaf is compared by modulus (the exact mode compares it bit for bit).
+PHASE_GAUGE = {"numpy.linalg.eig": (1,)}
+
+
+def _abs_leaves(c, idx):
+    if c[0] != "seq":
+        return c
+    out = list(c[1])
+    for i in idx:
+        if i < len(out) and out[i][0] in ("q", "b"):
+            out[i] = out[i][:1] + (np.abs(out[i][1]),) + out[i][2:]
+    return ("seq", out)
+
+
 def _drop_bare(c):
     if c[0] == "b":
         return ("py", "bare-out-buffer")
@@ -550,6 +566,8 @@ def compare(t, dk, sc, seed, mode="p4", regroup=0, out_mode="unyt"):
         # the result IS the caller's bare buffer (raw numbers in whatever unit): not a unit-carrying result,
         # and not a unitless one either
         a["result"], b["result"] = _drop_bare(a["result"]), _drop_bare(b["result"])
+    if not exact and t.func in PHASE_GAUGE:
+        a["result"], b["result"] = _abs_leaves(a["result"], PHASE_GAUGE[t.func]), _abs_leaves(b["result"], PHASE_GAUGE[t.func])
     if t.tid in ORDER_UNSPECIFIED:
         a["result"], b["result"] = _sorted_leaf(a["result"]), _sorted_leaf(b["result"])
     d = compare_leaf(a["result"], b["result"], exact, values=values)
